@@ -1,5 +1,5 @@
 //@ item: integer/src/gcd_ops.rs :: macro impl_ubig_gcd_ext#0 :: @arm
-/*@ requires repr0.wf(), repr1.wf(),
+/*@[!inl] requires repr0.wf(), repr1.wf(),
         repr0.v() != 0 || repr1.v() != 0,      // gcd_ext(0, 0) panics (documented)
         im_gcd_ext_res(repr0.nwords(), repr1.nwords()),   // resource bound for two `Large` operands
     // C12 / C15: g = gcd(a, b), s*a + t*b == g with (s, t) in the order (self, rhs)
